@@ -182,7 +182,7 @@ def run(ctx):
                        "(2) %d forced schedules on the real two threads (search thread parked at go entry / after init / before the loop / top of the first iteration / "
                        "before printing / at node visit k until the reader thread has executed Search::stop()): isready answered while parked, exactly one legal bestmove "
                        "after the stop, visits after the stop within the bound, wall clock < 5 s (secondary); free-running go infinite + stop; (3) %d sessions on a "
-                       "ThreadSanitizer build: no report involving the stop flag.  B1: go() does not touch the flag (clang AST), the flag is std::atomic<bool> (type trait)."
+                       "ThreadSanitizer build: no report involving the stop flag.  B1: go() does not touch the flag, no member function of Search writes anything but the literal true to it (clang AST of search.cpp), the flag is std::atomic<bool> (type trait)."
                        % (nstop, max(ks[:30 if q else 200]), len(scheds), len(tsched)))
     if missing:
         nviol += 1
@@ -191,7 +191,7 @@ def run(ctx):
         # the source no longer satisfies what the theorem needs (flag reset in go() / non-atomic flag): build the schedule from the model's refutation
         ctx.violation("Coq obligations for C06 no longer check (%s): layout facts %s; no lost stop was observed on the forced schedules" % (", ".join(failed), facts),
                       {"theorem_files": failed, "coq_output": out[-3000:], "layout": facts}, no_input=True)
-    ctx.cov["trusted_base"] += ["Coq 8.16.1 kernel", "translators: clang AST (does go() mention the flag), compiled type trait (is the flag std::atomic<bool>)",
+    ctx.cov["trusted_base"] += ["Coq 8.16.1 kernel", "translators: clang AST (does go() mention the flag; every write of the flag in member functions of Search), compiled type trait (is the flag std::atomic<bool>)",
                                 "the two-thread model is sequentially consistent with one shared flag; the C++ memory model, the OS scheduler and real-time promptness "
                                 "are exhibited only by the forced-schedule runs and ThreadSanitizer (partial by nature)",
                                 "ThreadSanitizer reports about the detached thread's teardown after bestmove (not about the stop signalling) are counted, not judged"]
